@@ -28,6 +28,12 @@ func NewTypeMap(f *TermFactory) *TypeMap {
 		"cosmossdk.io/math.LegacyDec": SInt, // value scaled by 10^18
 		"time.Time":                   SInt, // nanoseconds since the Unix epoch (UTC)
 		"math/big.Int":                SInt,
+		// typed atomics: the cell holds the value; every method is one atomic step on it (lib.go)
+		"sync/atomic.Bool":   SBool,
+		"sync/atomic.Int64":  SInt,
+		"sync/atomic.Uint64": SInt,
+		"sync/atomic.Int32":  SInt,
+		"sync/atomic.Uint32": SInt,
 	}
 	f.DeclareDT("Slice", []DTField{{"ref", SInt}, {"off", SInt}, {"len", SInt}, {"cap", SInt}})
 	return tm
@@ -240,8 +246,17 @@ func (tm *TypeMap) WellTyped(x *Term, t types.Type, depth int) *Term {
 	f := tm.f
 	t = types.Unalias(t)
 	if _, ok := tm.special[typeFullName(t)]; ok {
-		if typeFullName(t) == "cosmossdk.io/math.Uint" {
+		switch typeFullName(t) {
+		case "cosmossdk.io/math.Uint":
 			return f.Ge(x, f.Int(0))
+		case "sync/atomic.Int64":
+			return tm.WellTyped(x, types.Typ[types.Int64], 0)
+		case "sync/atomic.Uint64":
+			return tm.WellTyped(x, types.Typ[types.Uint64], 0)
+		case "sync/atomic.Int32":
+			return tm.WellTyped(x, types.Typ[types.Int32], 0)
+		case "sync/atomic.Uint32":
+			return tm.WellTyped(x, types.Typ[types.Uint32], 0)
 		}
 		return f.True()
 	}
@@ -293,8 +308,11 @@ func (tm *TypeMap) StrLen(x *Term) *Term {
 func (tm *TypeMap) Zero(t types.Type) *Term {
 	f := tm.f
 	t = types.Unalias(t)
-	if _, ok := tm.special[typeFullName(t)]; ok {
+	if s, ok := tm.special[typeFullName(t)]; ok {
 		// zero math.Int is a nil big.Int (methods panic); modelled as 0
+		if s == SBool {
+			return f.False()
+		}
 		return f.Int(0)
 	}
 	switch u := t.Underlying().(type) {
